@@ -55,24 +55,39 @@ def confirm(prop, i, name=None):
     return True
 
 
+SCRATCH = "/tmp/repo_seed"
+
+
 def run(sid, checks):
+    """With SEED_SCRATCH=1 the patch is applied to a scratch worktree of /repo (checks run with VERIF_REPO pointing at it):
+    used while a long sweep is reading /repo itself."""
     d = f"{VERIF}/seeded/{sid}"
     meta = json.load(open(f"{d}/meta.json"))
     checks = checks or [meta["property"]]
-    assert sh("git status --porcelain", cwd="/repo")[1].strip() == "", "/repo is dirty"
-    rc, o = sh(f"git apply {d}/patch.diff", cwd="/repo")
+    scratch = os.environ.get("SEED_SCRATCH") == "1"
+    target, env = "/repo", {}
+    if scratch:
+        sh(f"git worktree remove --force {SCRATCH}", cwd="/repo")
+        rc, o = sh(f"git worktree add --detach {SCRATCH} HEAD", cwd="/repo")
+        assert rc == 0, o
+        target, env = SCRATCH, {"VERIF_REPO": SCRATCH}
+    assert sh("git status --porcelain", cwd=target)[1].strip() == "", f"{target} is dirty"
+    rc, o = sh(f"git apply {d}/patch.diff", cwd=target)
     assert rc == 0, o
     res = {}
     try:
         for c in checks:
             t = time.time()
-            rc, o = sh(f"./check {c} --tier quick", cwd=VERIF, timeout=3600)
+            rc, o = sh(f"./check {c} --tier quick", cwd=VERIF, timeout=3600, env=env)
             viol = [ln for ln in o.splitlines() if ln.startswith("VIOLATION")]
             first = next((ln for ln in o.splitlines() if ln.startswith("  ") and viol), "")
             res[c] = {"exit": rc, "violations_reported": len(viol), "first": first.strip()[:300], "wall_s": round(time.time() - t, 1)}
             print(f"  {sid} vs {c}: exit={rc} VIOLATION lines={len(viol)} {first.strip()[:160]}")
     finally:
-        sh("git checkout -- .", cwd="/repo")
+        if scratch:
+            sh(f"git worktree remove --force {SCRATCH}", cwd="/repo")
+        else:
+            sh("git checkout -- .", cwd="/repo")
     # evidence files were rewritten by the mutant run: restore the committed ones
     sh("git checkout -- evidence", cwd=VERIF)
     prev = {}
